@@ -51,7 +51,15 @@ func (v *PacketDslVisitorImpl) metaDataDeclarationToMetaData(ctx *gen.MetaDataDe
 			Type: ctx.Type_().GetText(),
 		}
 	} else if ctx.Type_().FixedString() != nil {
-		size, _ := strconv.Atoi(ctx.Type_().FixedString().DIGITS().GetText())
+		size, sizeErr := strconv.Atoi(ctx.Type_().FixedString().DIGITS().GetText())
+		if sizeErr != nil {
+			v.BinModel.AddSyntaxError(&model.SyntaxError{
+				Line:   ctx.GetStart().GetLine(),
+				Column: ctx.GetStart().GetTokenSource().GetCharPositionInLine(),
+				Msg:    "Invalid fixed string length " + ctx.Type_().FixedString().DIGITS().GetText() + " for " + ctx.GetName().GetText(),
+			})
+			size = 0
+		}
 		if strings.Contains(ctx.Type_().GetText(), "zchar") {
 			attr = &model.FixedStringFieldAttribute{
 				Length:  size,
@@ -504,7 +512,15 @@ func (v *PacketDslVisitorImpl) metaDataDeclarationToField(ctx *gen.MetaDataDecla
 			Type: ctx.Type_().GetText(),
 		}
 	} else if ctx.Type_().FixedString() != nil {
-		size, _ := strconv.Atoi(ctx.Type_().FixedString().DIGITS().GetText())
+		size, sizeErr := strconv.Atoi(ctx.Type_().FixedString().DIGITS().GetText())
+		if sizeErr != nil {
+			v.BinModel.AddSyntaxError(&model.SyntaxError{
+				Line:   ctx.GetStart().GetLine(),
+				Column: ctx.GetStart().GetTokenSource().GetCharPositionInLine(),
+				Msg:    "Invalid fixed string length " + ctx.Type_().FixedString().DIGITS().GetText() + " for " + ctx.GetName().GetText(),
+			})
+			size = 0
+		}
 		if strings.Contains(ctx.Type_().GetText(), "zchar") {
 			attr = &model.FixedStringFieldAttribute{
 				Length:  size,
